@@ -435,6 +435,10 @@ func init() {
 								}
 							}
 						})
+						if sortCall == nil && commutativeKeysUse(fn) {
+							c.ok(key, p.instrPos(x), "the keys only fill a map under keys derived from them: the result does not depend on their order")
+							return
+						}
 						if sortCall == nil {
 							c.fail(key, p.instrPos(x), "reflect MapKeys() result is iterated without being sorted: the order of a v-for over a map is random")
 							return
@@ -1112,4 +1116,57 @@ func storedElemConsts(arr ssa.Value, fn *ssa.Function) ([]string, bool) {
 		}
 	})
 	return out, ok && len(out) > 0
+}
+
+// commutativeKeysUse: a function that enumerates reflect MapKeys() without sorting them does nothing that depends on
+// their order — it appends to nothing, concatenates and writes nothing, calls no callback, and fills a map under
+// keys that are not constants (m[k.String()] = v.MapIndex(k).Interface()).
+func commutativeKeysUse(fn *ssa.Function) bool {
+	updates := 0
+	ok := true
+	walkFuncTree(fn, func(f *ssa.Function) {
+		eachInstr(f, func(in ssa.Instruction) {
+			switch x := in.(type) {
+			case *ssa.MapUpdate:
+				updates++
+				if _, isC := x.Key.(*ssa.Const); isC {
+					ok = false
+				}
+			case *ssa.BinOp:
+				if x.Op == token.ADD && isString(x.Type()) {
+					ok = false
+				}
+			case *ssa.Send, *ssa.Go:
+				ok = false
+			case *ssa.Store:
+				if _, isEl := x.Addr.(*ssa.IndexAddr); isEl {
+					ok = false // filling a slice by position
+				}
+			case ssa.CallInstruction:
+				cc := x.Common()
+				if b, isB := cc.Value.(*ssa.Builtin); isB {
+					if b.Name() == "append" || b.Name() == "copy" {
+						ok = false
+					}
+					return
+				}
+				if cc.IsInvoke() {
+					nm := calleeName(cc)
+					if !strings.HasPrefix(nm, "reflect.Type.") {
+						ok = false
+					}
+					return
+				}
+				callee := cc.StaticCallee()
+				if callee == nil {
+					ok = false // a callback
+					return
+				}
+				if nm := calleeName(cc); strings.Contains(nm, "Write") || strings.Contains(nm, "Fprint") {
+					ok = false
+				}
+			}
+		})
+	})
+	return ok && updates > 0
 }
